@@ -28,8 +28,9 @@ class Unit:
     """cuts: dict alias -> regex on the mangled name. Each cut function is kept out of line (noinline), its body is
     omitted from the translation and the harness supplies a contract stub named by the alias (a #define in <unit>.h
     maps the alias to the mangled name, so harnesses do not depend on the version-specific inline namespace)."""
-    def __init__(s, name, src, defs=(), cuts=None, noinline=None):
+    def __init__(s, name, src, defs=(), cuts=None, noinline=None, memhook=False, memhook_allow=None):
         s.name, s.src, s.defs, s.noinline = name, src, list(defs), noinline
+        s.memhook, s.memhook_allow = memhook, memhook_allow   # store hook: assert that no store targets a mutable global (C20)
         s.cutmap = dict(cuts or {})
         s.cuts = '|'.join('(?:%s)' % x for x in s.cutmap.values()) if s.cutmap else None
 
@@ -110,7 +111,7 @@ def build_unit(bdir, unit, log):
     if r.returncode != 0: raise RuntimeError('opt failed for %s:\n%s' % (unit.name, r.stdout[-4000:]))
     ll = open(b.p('.ll')).read()
     hname = unit.name + '.h'
-    header, body, info = irtyped.translate_typed(ll, dict(omit=unit.cuts, ubchecks=True, hname=hname))
+    header, body, info = irtyped.translate_typed(ll, dict(omit=unit.cuts, ubchecks=True, hname=hname, memhook=unit.memhook, memhook_allow=unit.memhook_allow))
     if unit.cuts and not info['omitted']: raise RuntimeError('cut functions vanished (inlined?) in unit %s' % unit.name)
     alias = []
     for al, rx in unit.cutmap.items():
@@ -316,7 +317,7 @@ def process_ob(b, ob, log, seed, replay_dir, prop=None):
         rec['replay'] = rp; rec['replay_detail'] = detail[:600]
         if reproduced: rec['status'] = 'violation'
         else:
-            memsafety = all(re.search(r'pointer|bounds|dereference|overflow|LIBASSERT|ARDUINOJSON_ASSERT', f['desc']) for f in fails)
+            memsafety = all(re.search(r'pointer|bounds|dereference|overflow|LIBASSERT|ARDUINOJSON_ASSERT|store to a global object|unwinding assertion', f['desc']) for f in fails)
             rec['status'] = 'violation-unreplayed' if memsafety else 'tool-error'
             rec['why'] = 'counterexample did not reproduce natively: ' + detail[:300]
     else:
